@@ -324,8 +324,8 @@ def gen_broker_script(rng):
             args = rng.choice([[], [], [("h1", "v")], [("x-match", "any")]])
             b = (rng.choice(queues), ex, key, args)
             made.append(b); steps.append(("QB",) + b)
-        elif r < 0.58 and made:
-            steps.append(("QU",) + rng.choice(made))
+        elif r < 0.58 and [b for b in made if b[0] in queues]:
+            steps.append(("QU",) + rng.choice([b for b in made if b[0] in queues]))
         elif r < 0.63:
             q = rng.choice(queues)
             steps.append((rng.choice(["QU", "QB"]), q, "", q, []))     # the default exchange: must be refused
@@ -430,9 +430,24 @@ def judge_broker(steps, obs):
     return None
 
 
+def valid_len(steps):
+    """number of leading steps the broker does not answer with a 404 (which would close the channel)"""
+    queues, exs = set(), {""}
+    for i, st in enumerate(steps):
+        if st[0] == "XD": exs.add(st[1])
+        elif st[0] == "QD": queues.add(st[1])
+        elif st[0] in ("QB", "QU") and (st[2] not in exs or st[1] not in queues): return i
+        elif st[0] == "QDEL":
+            if st[1] not in queues: return i
+            queues.discard(st[1])
+        elif st[0] == "PUB" and st[1] not in exs: return i
+    return len(steps)
+
+
 def broker_to_coq(steps, obs):
     out = []
-    for st, ob in zip(steps, obs):
+    n = valid_len(steps)
+    for st, ob in list(zip(steps, obs))[:n]:
         if ob is None:
             break
         b = lambda x: cb(x.encode())
